@@ -140,7 +140,7 @@ func (x *Exec) libModel(fr *Frame, st *State, ins ssa.Instruction, callee *ssa.F
 		}
 		set(r)
 		return true
-	case "strings.Split", "strings.SplitN", "strings.Fields":
+	case "strings.Split", "strings.SplitN", "strings.Fields", "strings.SplitAfter", "strings.SplitAfterN":
 		// deterministic: length and contents are uninterpreted functions of the arguments;
 		// the result is a freshly allocated slice holding them.
 		var sorts []Sort
@@ -156,6 +156,16 @@ func (x *Exec) libModel(fr *Frame, st *State, ins ssa.Instruction, callee *ssa.F
 		r := mkSlice(ref, intLit(0), ln, ln)
 		if vc.noName == 0 {
 			vc.assert(and(le(intLit(0), ln), le(ln, bigIntLit("9223372036854775807"))))
+			if full == "strings.SplitAfter" {
+				// a non-empty separator gives at least one piece
+				vc.assert(implies(not(eq(args[1], strLit(""))), le(intLit(1), ln)))
+			}
+			if full == "strings.SplitN" || full == "strings.SplitAfterN" {
+				// n > 0: between 1 (non-empty separator) and n pieces; n == 0: nil
+				vc.assert(implies(and(lt(intLit(0), args[2]), not(eq(args[1], strLit("")))), and(le(intLit(1), ln), le(ln, args[2]))))
+				vc.assert(implies(eq(args[2], intLit(0)), eq(ln, intLit(0))))
+				vc.assert(implies(and(lt(args[2], intLit(0)), not(eq(args[1], strLit("")))), le(intLit(1), ln)))
+			}
 			if full == "strings.Split" {
 				// len >= 1 unless the separator is empty; a string without the separator splits into itself
 				vc.assert(implies(not(eq(args[1], strLit(""))), le(intLit(1), ln)))
